@@ -304,6 +304,36 @@ func runVolumes(c *vt.Ctx, steps []string) *vt.Deviation {
 			if b, err := win.ReadFile(v + `\file`); err != nil || string(b) != v {
 				return mk(st, fmt.Sprintf("file on volume %s: %q %v", v, b, err))
 			}
+			// a volume has its own root: exactly what was put there
+			if es, err := win.ReadDir(v + `\`); err != nil || len(es) != 1 || es[0].Name() != "file" {
+				return mk(st, fmt.Sprintf("ReadDir of the root of volume %s: %v %v, want [file]", v, es, err))
+			}
+		}
+		// a volume that does not exist cannot be reached by any path: Windows "path not found",
+		// and nothing appears on another volume
+		for _, v := range []string{"C:", "D:", "E:", "F:"} {
+			if model[v] {
+				continue
+			}
+			calls := map[string]error{}
+			_, calls["Stat"] = win.Stat(v + `\`)
+			_, calls["Lstat"] = win.Lstat(v + `\file`)
+			_, calls["ReadDir"] = win.ReadDir(v + `\`)
+			calls["Mkdir"] = win.Mkdir(v+`\ghostdir`, 0o755)
+			calls["MkdirAll"] = win.MkdirAll(v+`\ghostall\x`, 0o755)
+			calls["WriteFile"] = win.WriteFile(v+`\ghostfile`, []byte("x"), 0o644)
+			for name, err := range calls {
+				if !errors.Is(err, avfs.ErrWinPathNotFound) {
+					return mk(st, fmt.Sprintf("%s on the missing volume %s = %v, want ErrWinPathNotFound", name, v, err))
+				}
+			}
+			for o := range model {
+				for _, g := range []string{"ghostdir", "ghostall", "ghostfile"} {
+					if _, err := win.Lstat(o + `\` + g); err == nil {
+						return mk(st, fmt.Sprintf("a call on the missing volume %s created %s\\%s", v, o, g))
+					}
+				}
+			}
 		}
 	}
 	return nil
